@@ -3,6 +3,7 @@
 //!   vdriver compile <out> <entry> <file.sam>...   : run the real compile_sources, write emitted files
 //!   vdriver dump ...           : see dump.rs
 mod dump;
+mod irjson;
 mod kernels;
 
 fn main() {
